@@ -115,7 +115,7 @@ def kaldi_runs(run, tier, rng, root, traces):
     spec = [("k01_ok", 900, 1, RATE, None), ("k02_ok", 1500, 1, RATE, None), ("k03_short", 40, 1, RATE, "empty"),
             ("k04_stereo", 1000, 2, RATE, None), ("k05_rate", 1200, 1, 16000, "rate"), ("k06_ok", 700, 1, RATE, None),
             ("k07_one_frame", 100, 1, RATE, None), ("k08_two_frames", 161, 1, RATE, None),
-            ("k09_exactly_min_duration", 1000, 1, RATE, None)]  # 1000 / 8000 s = 0.125 s, exactly representable
+            ("k09_exactly_min_duration", 1000, 1, RATE, None), ("k10_half_a_frame", 80, 1, RATE, "empty")]  # 1000 / 8000 s = 0.125 s, exactly representable
     with open(os.path.join(d, "wav.scp"), "w") as scp:
         for (uid, n, ch, rate, why) in spec:
             x = nprng.randint(-3000, 3000, size=(n,) if ch == 1 else (n, ch))
@@ -233,10 +233,10 @@ def torch_runs(run, tier, rng, root, traces, computer=None, seed=5, combos=None,
     spec = []
     lines = []
     for k, (n, cont) in enumerate([(900, "wav"), (1300, "npy"), (60, "npy"), (1100, "pt"), (800, "sph"), (1000, "npy2"),
-                                   (100, "npy"), (161, "wav")]):
+                                   (100, "npy"), (161, "wav"), (80, "npy"), (5, "npy")]):  # (80 = frame_length / 2 exactly: still no frame)
         # (ids are matched whole: "t00" is not done because "t00x" is)
         # (... and may contain dots: "sp1.0-t04" and "sp1.1-t05" are two utterances, each stored under its own name)
-        uid = {0: "t00x", 3: "t00", 4: "sp1.0-t04", 5: "sp1.1-t05"}.get(k, "t%02d" % k)
+        uid = {0: "t00x", 3: "t00", 4: "sp1.0-t04", 5: "sp1.1-t05", 8: "t_half_frame", 9: "t_five_samples"}.get(k, "t%02d" % k)
         x = nprng.randint(-3000, 3000, size=n).astype(np.int16)
         p = os.path.join(d, "raw", uid + "." + cont.replace("npy2", "npy"))
         if cont == "wav":
@@ -326,6 +326,9 @@ def torch_runs(run, tier, rng, root, traces, computer=None, seed=5, combos=None,
                         sig = pt.PyTorchDither.from_dither(q)(torch.from_numpy(sig)).numpy()
                     else:
                         sig = q.apply(sig)
+                if comp is not None:
+                    # (a computer of its own for every utterance: what one utterance leaves behind is nobody else's business)
+                    comp = alias.alias_factory_subclass_from_arg(compute.FrameComputer, json.loads(json.dumps(COMPUTER)))
                 f = comp.compute_full(sig) if comp is not None else sig[:, None]
                 for q in posts:
                     f = q.apply(f)
